@@ -55,7 +55,7 @@ theorem lookup_cons_filter (u : Nat) (r : Int) (umap : List (Nat × Int)) (x : N
 maps every kept BDD node to an MDD reference with the intended meaning, and the MDD manager
 satisfies its invariant -/
 theorem b2mLoop_partial (S : Int → MAsg → Bool) (L : Nat → Nat)
-    (hSneg : ∀ x α, S (-x) α = !S x α)
+    (hSneg : ∀ x α, x ≠ 0 → S (-x) α = !S x α)
     (rm : List Nat) (btv : List (String × MVar))
     (P : Mgr → Prop) (K : Nat → Prop)
     (hBdd : ∀ u umap mb var succs mb1, P mb → K u →
@@ -147,7 +147,7 @@ theorem b2mLoop_partial (S : Int → MAsg → Bool) (L : Nat → Nat)
                 · next hnpos =>
                   rw [denM_neg mdd1.tbl hW1 r' α hrm1, hd]
                   have : x' = -((x'.natAbs : Nat) : Int) := by omega
-                  rw [this, hSneg]
+                  rw [this, hSneg _ _ (by omega)]
                   simp
               · simp only [hxu, if_false] at hl
                 obtain ⟨a, b, c⟩ := hU.ok x rx hl
